@@ -182,6 +182,11 @@ func (BridgeEngine) GenConfig(rng *rand.Rand, prop string, tier string) RunConfi
 		rc.Steps = 80 + rng.IntN(320)
 	}
 	rc.Knobs["ext_start_height"] = fmt.Sprint([]int{1, 3, 40, 1000, 1000, 5_000_000}[rng.IntN(6)])
+	if (prop == "C04" || prop == "C07") && rng.IntN(100) < 35 {
+		// an IBC voucher is one more representation of the bridged coin (alias), a loop-back channel is open and
+		// deposits may name an IBC target; the transfer module's voucher stock may or may not cover them
+		rc.World.IbcVoucher = &IbcVoucherCfg{Chan: "channel-0", Base: "xusd", ModuleStock: []string{"0", "700", "60000", "1000000000000"}[rng.IntN(4)]}
+	}
 	// swarm: a random subset of fault kinds
 	for _, f := range bridgeFaultKinds {
 		if rng.IntN(100) < 45 {
@@ -242,6 +247,11 @@ func (BridgeEngine) GenConfig(rng *rand.Rand, prop string, tier string) RunConfi
 		rc.Weights["batch"] *= 2
 		rc.Weights["relay"] *= 2
 	}
+	if rc.World.IbcVoucher != nil {
+		// parked deposits must actually be executed for the IBC leg to run
+		rc.Weights["exec"] *= 4
+		rc.Weights["ext-event"] *= 2
+	}
 	return rc
 }
 
@@ -291,6 +301,7 @@ func (e BridgeEngine) Init(r *Run) error {
 	st.Chk = newBridgeChecks(r, st)
 	r.St = st
 	e.installStatefulBuilders(r)
+	installIbcChanBuilders()
 	if !r.Replay {
 		st.Setup = e.setupSteps(r, st)
 	}
@@ -336,7 +347,22 @@ func (e BridgeEngine) setupSteps(r *Run, st *BridgeSt) []Step {
 		out = append(out, Step{Kind: "ext", A: A("chain", c.Name, "op", "init")})
 	}
 	// 3. register the bridged coin through governance (aliases for all chains)
-	out = append(out, Step{Kind: "gov", A: A("what", "register_coin", "symbol", "USDT", "decimals", 6)})
+	if v := r.Cfg.World.IbcVoucher; v != nil {
+		out = append(out, Step{Kind: "block", DtMs: 5000, N: 1, Txs: []Tx{{K: "bank_send", S: "user/0", A: A("to", r.W.Key("relayer", 0).Bech(), "denom", "FX", "amount", FX(1).String())}}})
+		out = append(out,
+			Step{Kind: "block", DtMs: 5000, N: 1, Txs: []Tx{{K: "ibc_chan_init", S: ibcRelayer}}},
+			Step{Kind: "block", DtMs: 5000, N: 1, Txs: []Tx{{K: "ibc_chan_try", S: ibcRelayer, A: A("cp", "channel-0")}}},
+			Step{Kind: "block", DtMs: 5000, N: 1, Txs: []Tx{{K: "ibc_chan_ack", S: ibcRelayer, A: A("ch", "channel-0", "cp", "channel-1")}}},
+			Step{Kind: "block", DtMs: 5000, N: 1, Txs: []Tx{{K: "ibc_chan_confirm", S: ibcRelayer, A: A("ch", "channel-1")}}})
+		var aliases []string
+		for _, c := range st.Chains {
+			aliases = append(aliases, cctypes.NewBridgeDenom(c.Name, ExtAddrStr(c.Name, tokenContract(c.Name, "USDT"))))
+		}
+		aliases = append(aliases, bridgeVoucherDenom(v))
+		out = append(out, Step{Kind: "gov", A: A("what", "register_coin", "symbol", "USDT", "decimals", 6, "aliases", strings.Join(aliases, ","))})
+	} else {
+		out = append(out, Step{Kind: "gov", A: A("what", "register_coin", "symbol", "USDT", "decimals", 6)})
+	}
 	// 4. tokens on the external chains
 	for _, c := range st.Chains {
 		for _, t := range c.Tokens {
@@ -367,6 +393,10 @@ func (e BridgeEngine) setupSteps(r *Run, st *BridgeSt) []Step {
 		}
 	}
 	return out
+}
+
+func bridgeVoucherDenom(v *IbcVoucherCfg) string {
+	return ibcVoucherDenom("transfer/"+v.Chan, v.Base)
 }
 
 func minI64(a, b int64) int64 {
